@@ -155,7 +155,7 @@ def run(tier, replay=None):
                 if kind == "zeros" and any(freqs[a] == 0 for a in g) and pi != 0.0:
                     chk.violation("genotype containing a zero-frequency allele has positive prior", {**case, "impl": pi},
                                   "C05/call_prior/zero-frequency")
-            if abs(total - 1.0) > 1e-9:
+            if not (abs(total - 1.0) <= 1e-9):     # a NaN total is a failure too
                 chk.violation(f"genotype prior sums to {total!r} over all unordered genotypes",
                               {"ploidy": ploidy, "n_alleles": n, "inbreeding": F,
                                "frequencies": None if freqs is None else freqs.tolist(), "sum": total},
